@@ -100,8 +100,8 @@ package common
 //@ sort PubkeyT = BLSPubkey
 
 // pc_local: pub2idx is exactly the inverse of the local segment idx2pub, which
-// starts at index trustedParentCount.
-//@ define pc_local(m Pub2Idx, s Idx2Pub, trusted int) bool = !isnil(m) && trusted + len(s) < 4611686018427387904 && (forall p PubkeyT :: {m[p]} {has(m, p)} has(m, p) ==> trusted <= m[p] && m[p] < trusted + len(s) && s[m[p] - trusted].Compressed == p) && (forall k :: {m[s[k].Compressed]} {has(m, s[k].Compressed)} 0 <= k && k < len(s) ==> has(m, s[k].Compressed) && m[s[k].Compressed] == trusted + k)
+// starts at index trustedParentCount (indices stay below VALIDATOR_REGISTRY_LIMIT = 2^40).
+//@ define pc_local(m Pub2Idx, s Idx2Pub, trusted int) bool = !isnil(m) && trusted + len(s) <= 1099511627776 && (forall p PubkeyT :: {m[p]} {has(m, p)} has(m, p) ==> trusted <= m[p] && m[p] < trusted + len(s) && s[m[p] - trusted].Compressed == p) && (forall k :: {m[s[k].Compressed]} {has(m, s[k].Compressed)} 0 <= k && k < len(s) ==> has(m, s[k].Compressed) && m[s[k].Compressed] == trusted + k)
 
 // pcs_ok: every allocated cache is locally consistent, its parent was allocated
 // before it (so the parent chain is acyclic and finite) and it trusts no more of
@@ -131,6 +131,7 @@ package common
 //@   decreases pc, 0
 //@   ensures lock: held(pc.rwLock) == old(held(pc.rwLock))
 //@   ensures inview: ok ==> index < pc.trustedParentCount + len(pc.idx2pub)
+//@   ensures nonnil: ok <==> pub != nil
 //@   ensures local: index >= pc.trustedParentCount ==> (ok <==> index < pc.trustedParentCount + len(pc.idx2pub))
 
 //@ func (pc *PubkeyCache) Pubkey(index) (pub, ok)
@@ -142,6 +143,7 @@ package common
 //@   decreases pc, 1
 //@   ensures lock: held(pc.rwLock) == 0
 //@   ensures inview: ok ==> index < pc.trustedParentCount + len(pc.idx2pub)
+//@   ensures nonnil: ok <==> pub != nil
 //@   ensures local: index >= pc.trustedParentCount ==> (ok <==> index < pc.trustedParentCount + len(pc.idx2pub))
 
 //@ func (pc *PubkeyCache) unsafeValidatorIndex(pubkey) (index, ok)
@@ -155,6 +157,7 @@ package common
 //@   ensures inview: ok ==> index < pc.trustedParentCount + len(pc.idx2pub)
 //@   ensures local: has(pc.pub2idx, pubkey) ==> ok && index == pc.pub2idx[pubkey]
 //@   ensures inherited: ok && !has(pc.pub2idx, pubkey) ==> index < pc.trustedParentCount
+//@   ensures root_miss: pc.parent == nil && !has(pc.pub2idx, pubkey) ==> !ok
 
 //@ func (pc *PubkeyCache) ValidatorIndex(pubkey) (index, ok)
 //@   property C16 C17
@@ -167,3 +170,30 @@ package common
 //@   ensures inview: ok ==> index < pc.trustedParentCount + len(pc.idx2pub)
 //@   ensures local: has(pc.pub2idx, pubkey) ==> ok && index == pc.pub2idx[pubkey]
 //@   ensures inherited: ok && !has(pc.pub2idx, pubkey) ==> index < pc.trustedParentCount
+//@   ensures root_miss: pc.parent == nil && !has(pc.pub2idx, pubkey) ==> !ok
+// AddValidator: the global cache invariant is preserved (including across the
+// fork-out path, whose fresh handle trusts exactly the agreeing prefix), the
+// receiver is only ever appended to, and for a root cache (no parent) the four
+// cases of the property statement are pinned down.  Termination of the fork-out
+// recursion is not proved (no measure is expressible without the lookup
+// functions as spec functions); see DESIGN.md.
+//@ func (pc *PubkeyCache) AddValidator(index, pub) (out, err)
+//@   property C16 C17
+//@   requires pc != nil && held(pc.rwLock) == 0
+//@   requires forall r PcPtr :: {pctrig(r)} pctrig(r) && alloc(r) ==> pc_local(r.pub2idx, r.idx2pub, r.trustedParentCount) && pc_chain(r.parent, r, r.trustedParentCount, r.parent.trustedParentCount, len(r.parent.idx2pub)) && held(r.rwLock) == 0
+//@   requires alloc(pc) && pctrig(pc) && pctrig(pc.parent)
+//@   requires registry_limit: index < 1099511627776
+//@   assigns pc.idx2pub, pc.pub2idx
+//@   ensures lock: held(pc.rwLock) == 0
+//@   ensures inv_chain: forall r PcPtr :: {pctrig(r)} pctrig(r) && alloc(r) ==> pc_chain(r.parent, r, r.trustedParentCount, r.parent.trustedParentCount, len(r.parent.idx2pub))
+//@   ensures inv_others: forall r PcPtr :: {pctrig(r)} pctrig(r) && alloc(r) && r != pc ==> pc_local(r.pub2idx, r.idx2pub, r.trustedParentCount)
+//@   ensures inv_self_wf: !isnil(pc.pub2idx) && pc.trustedParentCount + len(pc.idx2pub) <= 1099511627776
+//@   ensures inv_self_fwd: forall p PubkeyT :: {pc.pub2idx[p]} has(pc.pub2idx, p) ==> pc.trustedParentCount <= pc.pub2idx[p] && pc.pub2idx[p] < pc.trustedParentCount + len(pc.idx2pub) && pc.idx2pub[pc.pub2idx[p] - pc.trustedParentCount].Compressed == p
+//@   ensures inv_self_bwd: forall k :: {pc.idx2pub[k]} 0 <= k && k < len(pc.idx2pub) ==> has(pc.pub2idx, pc.idx2pub[k].Compressed) && pc.pub2idx[pc.idx2pub[k].Compressed] == pc.trustedParentCount + k
+//@   ensures handle: err == nil ==> out != nil && alloc(out) && (out == pc || !old(alloc(out)))
+//@   ensures failed: err != nil ==> unchanged(pc.idx2pub) && unchanged(pc.pub2idx)
+//@   ensures append_only: len(pc.idx2pub) >= old(len(pc.idx2pub)) && (forall k :: {pc.idx2pub[k]} 0 <= k && k < old(len(pc.idx2pub)) ==> pc.idx2pub[k].Compressed == old(pc.idx2pub[k].Compressed))
+//@   ensures root_known: pc.parent == nil && pc.trustedParentCount == 0 && old(has(pc.pub2idx, pub)) && old(pc.pub2idx[pub]) == index ==> unchanged(pc.idx2pub) && unchanged(pc.pub2idx)
+//@   ensures root_next: pc.parent == nil && pc.trustedParentCount == 0 && !old(has(pc.pub2idx, pub)) && index == old(len(pc.idx2pub)) ==> err == nil && out == pc && len(pc.idx2pub) == index + 1 && pc.idx2pub[index].Compressed == pub && has(pc.pub2idx, pub) && pc.pub2idx[pub] == index
+//@   ensures root_beyond: pc.parent == nil && pc.trustedParentCount == 0 && !old(has(pc.pub2idx, pub)) && index > old(len(pc.idx2pub)) ==> err != nil
+//@   ensures root_conflict: pc.parent == nil && pc.trustedParentCount == 0 && old(has(pc.pub2idx, pub)) && old(pc.pub2idx[pub]) != index ==> (err == nil ==> out != pc) && unchanged(pc.idx2pub) && unchanged(pc.pub2idx)
